@@ -9,7 +9,9 @@
 //   converged => f(returned) <= f(centre of the converging search call); RQB: returned point == that centre
 //   the reported value is the function's answer at the returned point, which was evaluated
 //   RQB: the centre after a serious step is the point the curve search returned; centre values never increase
-// config: solver=<rqb|fpba1|fpba2>;d=<dims>;evals=<max_evals>
+//   bundle representation invariant 1 <= size() < capacity() at every curve-search call, for ANY multipliers (the stub installs an
+//   arbitrary point of the simplex as the real curve search's bundle_t::solve would) - bundle::max_size from the configuration
+// config: solver=<rqb|fpba1|fpba2>;d=<dims>;evals=<max_evals>;bsize=<bundle::max_size>;alphas=<0: multipliers left untouched>
 #include "horacle.h"
 #include <nano/solver.h>
 #include <nano/solver/csearch.h>
@@ -27,6 +29,8 @@ struct call_t
     double              fy{0};
 };
 std::vector<call_t> g_calls;
+int                 g_overflow = 0; // a curve-search call saw a bundle with size() >= capacity()
+int                 g_empty    = 0; // ... or an empty bundle
 const csearch_status g_statuses[6] = {csearch_status::failed,    csearch_status::max_iters,    csearch_status::converged,
                                       csearch_status::null_step, csearch_status::descent_step, csearch_status::cutting_plane_step};
 } // namespace
@@ -39,6 +43,23 @@ const csearch_t::point_t& csearch_t::search(bundle_t& bundle, const scalar_t, co
     for (tensor_size_t i = 0; i < n; ++i) c.cx.push_back(bundle.x()(i));
     c.cfx    = bundle.fx();
     c.status = sym_choose(sym_nm("cs", k).c_str(), 6);
+    // representation invariant of the bundle (the code's own assert): 1 <= size() < capacity(); the slot at capacity() - 1 is
+    // reserved for the aggregate, the next append writes at index size()
+    if (bundle.size() >= bundle.capacity()) g_overflow = 1;
+    if (bundle.size() < 1) g_empty = 1;
+    // the real curve search updates the multipliers (bundle_t::solve) before it returns: an ARBITRARY point of the simplex here,
+    // so that every pattern of active / inactive cuts reaches delete_inactive / delete_largest
+    if (cfgi("alphas", 1) && bundle.size() >= 1 && bundle.size() < bundle.capacity())
+    {
+        double rest = 1.0;
+        for (tensor_size_t i = 0; i + 1 < bundle.size(); ++i)
+        {
+            bundle.m_alphas(i) = sym_real_in(sym_nm("al", k, i).c_str(), 0.0, 1.0, 0);
+            rest               = rest - bundle.m_alphas(i);
+        }
+        sym_assume_cmp(rest, SYM_GE, 0.0);
+        bundle.m_alphas(bundle.size() - 1) = rest;
+    }
 
     auto& p = m_point;
     p.m_y.resize(n);
@@ -58,6 +79,8 @@ const csearch_t::point_t& csearch_t::search(bundle_t& bundle, const scalar_t, co
 extern "C" void sym_body()
 {
     g_calls.clear();
+    g_overflow = 0;
+    g_empty    = 0;
     const tensor_size_t n     = cfgi("d", 1);
     const long          evals = cfgi("evals", 10);
     const std::string   id    = cfg("solver", "rqb");
@@ -68,12 +91,15 @@ extern "C" void sym_body()
     const double eps = sym_real_in("eps", 0.0, 0.1, 1);
     solver->parameter("solver::epsilon")   = eps;
     solver->parameter("solver::max_evals") = evals;
+    if (cfgi("bsize", 0) > 0) solver->parameter("solver::" + id + "::bundle::max_size") = cfgi("bsize", 0);
 
     const vector_t x0    = sym_vector("x", n);
     const auto     state = solver->minimize(f, x0, make_null_logger());
     const auto     st    = state.status();
 
     SYM_CHECK(st == solver_status::converged || st == solver_status::max_iters || st == solver_status::failed, "status is one of converged/max_iters/failed");
+    SYM_CHECK(!g_overflow, "bundle invariant: size() < capacity() whenever the curve search is called (the next cut is written at index size())");
+    SYM_CHECK(!g_empty, "bundle invariant: at least one cut whenever the curve search is called");
     if (g_calls.empty()) return;
     const auto& last = g_calls.back();
 
